@@ -20,7 +20,7 @@ BOUNDS = {"quick": "operation kinds: Fock Creation / Annihilation / PhaseShift /
 OPTS = {"quick": {"max_paths": 96, "timeout_ms": 10000, "case_timeout_s": 900},
         "thorough": {"max_paths": 192, "timeout_ms": 30000, "case_timeout_s": 1800}}
 
-KINDS = ["comp.ExprFF", "fock.Creation", "fock.Annihilation", "fock.PhaseShift", "fock.Custom", "fock.Expresion", "pol.RX", "pol.CustomNumpy",
+KINDS = ["fock.DisplaceConcrete", "comp.ExprFF", "fock.Creation", "fock.Annihilation", "fock.PhaseShift", "fock.Custom", "fock.Expresion", "pol.RX", "pol.CustomNumpy",
          "custom.Custom", "comp.CX", "comp.ExprPC", "comp.ExprCP"]
 INTERLEAVE = ["none", "construct-sibling", "apply-sibling"]
 
@@ -35,6 +35,11 @@ def cases(tier):
 
 def _world(kind):
     """two targets for the operation: t1 (first application) and t2 (second application)"""
+    if kind == "fock.DisplaceConcrete":
+        # two targets with the same highest occupied level but different amplitudes (set concretely in the scenario)
+        S = cm.subs(2, 0, [4, 4])
+        w = cm.world(S, [{"kind": "own", "sub": "f0", "level": "V"}, {"kind": "own", "sub": "f1", "level": "V"}], [["e0", "e1"]])
+        return w, [["f0"], ["f1"]]
     if kind == "fock.Expresion":
         # the dimension search of Expresion evaluates floats of the state: concrete (label) targets
         S = cm.subs(2, 0, [2, 3])
@@ -156,11 +161,63 @@ def _apply(W, kind, op, names):
     return ts
 
 
+def _displace_concrete(B, case):
+    """one Displace operation object applied to two concrete states with equal highest occupied level but different
+    amplitudes: each result must be within 5e-3 of the ideal displaced state (the dimension estimate depends on the
+    amplitudes, so a stale estimate from the first application truncates the second)"""
+    import numpy as np
+    import scipy.linalg as sl
+
+    from photon_weave.operation import FockOperationType, Operation
+
+    from symx.world import World
+
+    w, seq = _world("fock.DisplaceConcrete")
+    W = World(B, w)
+    alpha = 2.0
+    vecs = {"f0": np.array([0.995, 0, 0, 0.0998749]), "f1": np.array([0.1, 0, 0, 0.9949874])}
+    for n, v in vecs.items():
+        v = v / np.linalg.norm(v)
+        W.sub(n).state = B.jnp.array(v.reshape(4, 1).astype(complex))
+    op = Operation(FockOperationType.Displace, alpha=alpha)
+    Dbig = 90
+    a = np.diag(np.sqrt(np.arange(1, Dbig)), 1).astype(complex)
+    U = sl.expm(alpha * a.conj().T - np.conj(alpha) * a)
+    for step, names in enumerate(seq):
+        if case["interleave"] != "none":
+            sib = Operation(FockOperationType.Displace, alpha=0.3)
+            if case["interleave"] == "apply-sibling":
+                W.sub(seq[1 - step][0]).apply_operation(sib) if step == 0 else None
+        f = W.sub(names[0])
+        psi0 = np.zeros(Dbig, dtype=complex)
+        st = B.np(f.state).reshape(-1)
+        psi0[:len(st)] = [complex(_cc(B, x)) for x in st]
+        f.apply_operation(op)
+        got = np.array([complex(_cc(B, x)) for x in B.np(f.state).reshape(-1)])
+        want = U @ psi0
+        d = len(got)
+        err = float(np.max(np.abs(got - want[:d])))
+        lost = float(np.sum(np.abs(want[d:]) ** 2))
+        B.require_structural(err <= 5e-3 and lost <= 1e-4,
+                             f"C15: application {step + 1} of one Displace object deviates from the ideal displaced state "
+                             f"(the result must not depend on what the object was applied to before)", detail={"err": err, "lost": lost, "dim": d})
+
+
+def _cc(B, x):
+    if B.mode == "real":
+        return complex(x)
+    from symx import core
+
+    return complex(core.SC.lift(x))
+
+
 def scenario(B, case):
     from symx.explore import Cut
     from symx.world import World
 
     kind, il = case["kind"], case["interleave"]
+    if kind == "fock.DisplaceConcrete":
+        return _displace_concrete(B, case)
     w, seq = _world(kind)
     W = World(B, w)
     op, refop, renorm, user, headroom = _make(B, kind, "", W)
